@@ -15,6 +15,20 @@ template <typename CT> static CT C(const fields& f) { return CT(f.y, f.m, f.d, f
 '''
 
 
+# native meaning of the opaque specification symbols (their definitions)
+NATIVE_OPAQUE = r'''
+#define __CPROVER_uninterpreted_dayord(y, m, d) ORD(y, m, d)
+#define __CPROVER_uninterpreted_validd(y, m, d) (VALID_YMD(y, m, d) ? 1 : 0)
+#define __CPROVER_uninterpreted_monbase(y, m) ORD(NMON_Y1(y, m), NMON_M1(m), 1)
+#define __CPROVER_uninterpreted_nmon_pre(y, m, d, cd) (NMON_PRE_DEF(y, m, d, cd) ? 1 : 0)
+#define __CPROVER_uninterpreted_nday_pre(y, m, d, cd) (NDAY_PRE_DEF(y, m, d, cd) ? 1 : 0)
+#define __CPROVER_uninterpreted_idx400(x) ((int)FM(x, 400))
+#define __CPROVER_uninterpreted_ordi(e, m, d) ORD_I(e, m, d)
+#define __CPROVER_uninterpreted_leapi(e) (LEAP_I(e) ? 1 : 0)
+#define __CPROVER_uninterpreted_fmi(e) FM400_I(e)
+'''
+
+
 def EXTRA_SOURCES(repo):
     return []
 
